@@ -33,7 +33,7 @@ VARIABLES pi, ci, fi,   \* which case / configuration / fault set
           hookFailed, shouldSkip,
           rt,           \* runner scalars: hookN hookFailures aborted undefN runFeature failedCount rootClFailed done
           ctx,          \* context frames, root first: [layer, cls, owner]
-          cap,          \* capture: [buf (markers of the running scenario), errmarks]
+          cap,          \* capture: [buf (captured markers of the running scenario), errmarks, rout, rerr (markers on the real streams)]
           evlog         \* ghost: observable events
 vars == <<pi, ci, fi, stack, ret, stepst, forced, hookFailed, shouldSkip, rt, ctx, cap, evlog>>
 
@@ -127,7 +127,7 @@ Init == /\ pi \in 1..Len(Cases)
         /\ rt = [hookN |-> 0, hookFailures |-> 0, aborted |-> FALSE, undefN |-> 0, runFeature |-> TRUE,
                  failedCount |-> 0, rootClFailed |-> FALSE, done |-> FALSE]
         /\ ctx = << [layer |-> "testrun", cls |-> <<>>] >>
-        /\ cap = [buf |-> <<>>, errmarks |-> [el \in 1..Len(Cases[pi].prog) |-> [k \in 1..Len(Cases[pi].prog[el].steps) |-> <<>>]]]
+        /\ cap = [buf |-> <<>>, rout |-> <<>>, rerr |-> <<>>, errmarks |-> [el \in 1..Len(Cases[pi].prog) |-> [k \in 1..Len(Cases[pi].prog[el].steps) |-> <<>>]]]
         /\ evlog = <<>>
 
 U(vs) == UNCHANGED vs
@@ -415,7 +415,12 @@ SPop ==
 
 \* ======================================================================= Step.run (frame.el = scenario, frame.i = position)
 Wip(el) == "wip" \in Eff(el)
-Mark(t, k) == [t |-> t, pos |-> k]
+Mark(t, el, k) == [t |-> t, el |-> el, pos |-> k]
+\* a step or step hook writes marker m to stdout / stderr / logging: captured if that switch is on, else on the real stream
+\* (a log record with log capture off reaches only the user's own handlers)
+Wr(c, stream, m) == CASE stream = "out" -> IF cfg.cap_out THEN [c EXCEPT !.buf = Append(@, m)] ELSE [c EXCEPT !.rout = Append(@, m)]
+                      [] stream = "err" -> IF cfg.cap_err THEN [c EXCEPT !.buf = Append(@, m)] ELSE [c EXCEPT !.rerr = Append(@, m)]
+                      [] stream = "log" -> IF cfg.cap_log THEN [c EXCEPT !.buf = Append(@, m)] ELSE c
 StStart ==      \* find_match; undefined path; formatter.match
    /\ Top.fn = "step" /\ Top.pc = "enter"
    /\ LET el == Top.el  k == Top.i  s == Steps(el)[k] IN
@@ -433,7 +438,7 @@ StBefore ==     \* start_capture; before_step hook
    /\ Top.fn = "step" /\ Top.pc = "bhook"
    /\ rt' = RtHook(FALSE)
    /\ evlog' = Append(evlog, HookEv("before_step", Top.el, "", Raises, Top.i, TRUE))
-   /\ cap' = [cap EXCEPT !.buf = Append(@, Mark("Hb", Top.i))]
+   /\ cap' = Wr(cap, "out", Mark("Hb", Top.el, Top.i))
    /\ stack' = SetTop([Top EXCEPT !.hf = Raises, !.pc = IF Raises THEN "ahook" ELSE "body"])
    /\ U(<<inputs, ret, model, ctx>>)
 StBody ==       \* match.run: converter error, or the body with its outcome
@@ -444,7 +449,7 @@ StBody ==       \* match.run: converter error, or the body with its outcome
           /\ stepst' = [stepst EXCEPT ![el][k] = "error"] /\ U(<<evlog, rt, shouldSkip, ctx, cap>>)
       ELSE
           /\ evlog' = Append(evlog, StepEv(el, k, o))
-          /\ cap' = [cap EXCEPT !.buf = Append(@, Mark("O", k))]
+          /\ cap' = Wr(Wr(Wr(cap, "out", Mark("O", el, k)), "err", Mark("E", el, k)), "log", Mark("L", el, k))
           /\ ctx' = IF s.cl_id = 0 \/ lookupFails THEN ctx
                     ELSE LET idx == IF s.cl_layer = "" THEN Len(ctx) ELSE LayerIdx(s.cl_layer) IN
                          [ctx EXCEPT ![idx].cls = Append(@, [id |-> s.cl_id, raises |-> s.cl_raises])]
@@ -464,7 +469,7 @@ StAfter ==      \* after_step hook (unconditional); stop_capture
    /\ LET el == Top.el  k == Top.i IN
       /\ rt' = RtHook(FALSE)
       /\ evlog' = Append(evlog, HookEv("after_step", el, "", Raises, k, TRUE))
-      /\ cap' = [cap EXCEPT !.buf = Append(@, Mark("Ha", k))]
+      /\ cap' = Wr(cap, "out", Mark("Ha", el, k))
       /\ LET hf == Top.hf \/ Raises IN
          stepst' = [stepst EXCEPT ![el][k] = IF hf THEN "hook_error" ELSE @]
       /\ stack' = SetTop([Top EXCEPT !.pc = "result"])
